@@ -33,6 +33,7 @@ import Rs1090.Props.C13
 import Rs1090.Proofs.C03Commb
 import Rs1090.Proofs.C03Air
 import Rs1090.Proofs.C03Track
+import Rs1090.Gen.HiddenState
 namespace Rs1090.Props.C03
 open Rs1090 Rs1090.Model Rs1090.Model.Message Rs1090.Spec Rs1090.Spec.Encode Rs1090.Props.C13 Rs1090.Proofs.C03
 
@@ -1547,5 +1548,23 @@ example :
     asInt (decodedGet (tryFrom (buildAir16 1 7 3 (ac13G (gillhamStep 38000)) 0x40621d
       [(8, 0x30), (8, 0xa2), (8, 0), (8, 0), (8, 0), (8, 0), (8, 0)])) (key! "vs")) = some 1 := by
   decide +kernel
+
+/-! ### hidden state (the code side of "is a function of its input") -/
+
+/-- **No hidden state besides the reviewed one** in the decoder's files.  Every theorem above is about the
+    decoder as a FUNCTION of the frame; the translator lists on every run every construct through which a Rust
+    function can carry state between calls (`static`, `thread_local!`, `lazy_static!`, `OnceCell`/`Lazy`,
+    `Cell`/`RefCell`/`UnsafeCell`, `Mutex`/`RwLock`, atomics, `unsafe`; whole files) and the only one in the
+    decoder's files is the serialisation switch `CONFIG` (read by `Serialize for TimedMessage` only).  A memo of
+    decoded values or of Comm-B inferences breaks this obligation by name. -/
+theorem hidden_state_reviewed :
+    Gen.HiddenState.sitesIn
+      ["decode/mod.rs", "decode/adsb.rs", "decode/commb.rs", "decode/crc.rs", "decode/bds/mod.rs",
+   "decode/bds/bds05.rs", "decode/bds/bds06.rs", "decode/bds/bds08.rs", "decode/bds/bds09.rs",
+   "decode/bds/bds10.rs", "decode/bds/bds17.rs", "decode/bds/bds18.rs", "decode/bds/bds19.rs",
+   "decode/bds/bds20.rs", "decode/bds/bds21.rs", "decode/bds/bds30.rs", "decode/bds/bds40.rs",
+   "decode/bds/bds44.rs", "decode/bds/bds45.rs", "decode/bds/bds50.rs", "decode/bds/bds60.rs",
+   "decode/bds/bds61.rs", "decode/bds/bds62.rs", "decode/bds/bds65.rs"] =
+      [("decode/mod.rs", "static CONFIG: OnceCell<SerializeConfig> = OnceCell::new();")] := by decide
 
 end Rs1090.Props.C03
